@@ -4,7 +4,9 @@ Proof by representation invariant I: the private vector is strictly ascending.
 Decided on MIR facts: encapsulation (who may write the vector), every mutator re-establishes I,
 observers are functions of the vector. Thorough tier adds compile-fail witnesses.
 """
+import json
 import os
+import re
 import shutil
 
 from ..mir import Mir, Exprs, strip_transparent, borrow_root, place_str, reach_from
@@ -333,6 +335,50 @@ def run_rules(mir, res):
         for c in fn.calls():
             if c.callee and c.callee.get("unsafe") and not (c.exp and not c.term["span"].get("def_site_local", True)):
                 res.violate("R-C18-encap", "unsafe-call|" + fn.path + "|" + str(c.rpath), c.where, "call of an unsafe function inside the set's impl")
+    # the crate's own element types: the proof trusts "a lawful Ord on elements" for foreign T; for every local type
+    # the crate itself stores in the set, the order and the equality must agree (cmp == Equal iff ==), which the
+    # derives guarantee and a hand-written impl guarantees only if it reads every field the other one reads
+    ELEM = "R-C18-elem"
+    res.rule(ELEM, "every local type stored in the ordered set has PartialEq/Eq/PartialOrd/Ord all derived, or hand-written impls that read the same fields as the derived / hand-written counterpart (order and equality agree)")
+    inst = set()
+    pat = re.compile(re.escape(set_path) + r"<([^<>]*(?:<[^<>]*>)?[^<>]*)>")
+    for fn in mir.fns.values():
+        for l in fn.locals:
+            for mm in pat.finditer(l["ty"]["s"]):
+                inst.add(mm.group(1).lstrip("&").strip())
+    for a in mir.adts.values():
+        for v in a.get("variants", []):
+            for fl in v["fields"]:
+                for mm in pat.finditer(fl["ty"]["s"]):
+                    inst.add(mm.group(1).lstrip("&").strip())
+    local_elems = sorted(x for x in inst if x in mir.adts)
+    res.count("local element types of the set", len(local_elems))
+    for T in local_elems:
+        adt_t = mir.adts[T]
+        all_fields = sorted({f["name"] for v in adt_t.get("variants", []) for f in v["fields"]})
+        impls_t = {im.get("trait"): im for im in mir.impls if im["self_ty"]["head"] == T and im.get("trait") in ("std::cmp::PartialEq", "std::cmp::Eq", "std::cmp::PartialOrd", "std::cmp::Ord")}
+        hand = sorted(tr for tr, im in impls_t.items() if not im["derived"])
+        read = {}
+        for tr in hand:
+            if tr == "std::cmp::Eq":
+                continue
+            fs_ = set()
+            for fn in mir.fns.values():
+                if fn.impl and fn.impl.get("key") == impls_t[tr]["key"] or (fn.kind == "Closure" and fn.parent and mir.fns.get(fn.parent) is not None and mir.fns[fn.parent].impl and mir.fns[fn.parent].impl.get("key") == impls_t[tr]["key"]):
+                    for b in fn.blocks:
+                        for s_ in b["stmts"]:
+                            for m_ in re.finditer(r'"name": "(\w+)", "owner": "%s"' % re.escape(T), json.dumps(s_)):
+                                fs_.add(m_.group(1))
+                        for m_ in re.finditer(r'"name": "(\w+)", "owner": "%s"' % re.escape(T), json.dumps(b["term"])):
+                            fs_.add(m_.group(1))
+            read[tr] = sorted(fs_)
+        ok_t = all(read[tr] == all_fields for tr in read)
+        res.inst(ELEM, "element|" + T, res_where(adt_t), True, "comparison impls %s; hand-written: %s reading %s; fields %s" % (sorted(x.rsplit("::", 1)[-1] for x in impls_t), [h.rsplit("::", 1)[-1] for h in hand], read, all_fields))
+        res.oblige("element type %s: order and equality agree" % T, ok_t)
+        if not ok_t:
+            bad_tr = [tr for tr in read if read[tr] != all_fields][0]
+            res.violate(ELEM, "element|%s|%s" % (T, bad_tr.rsplit("::", 1)[-1]), res_where(adt_t), "`%s` is stored in the ordered set but its hand-written %s reads only %s of the fields %s while the other comparison impls cover all of them: two values can compare Equal without being ==, so `Oset<%s>` keeps both on bulk construction and drops one on insert (it no longer behaves as a set)" % (T.rsplit("::", 1)[-1], bad_tr.rsplit("::", 1)[-1], read[bad_tr], all_fields, T.rsplit("::", 1)[-1]))
+    res.floor("local element types of the set", len(local_elems), 3)
     kinds = sorted(set(classified.values()))
     res.count("classification kinds", len(kinds))
     res.extra["classification"] = {mir.fns[k].path: v for k, v in classified.items()}
